@@ -260,10 +260,11 @@ def judgeGroup (m : Mapper) (before : List GProc) (after : Except Err (List GPro
     some (s!"exception:{e}", tag)
   | .ok aft =>
     let idsOfName (n : String) : Option Ids := (aft.find? (·.name == n)).map (·.ids)
-    -- '@' : injective, inside the reference list, no roll-over
+    -- '@' : injective (also with respect to what was assigned in the group before), no roll-over
     let atAfter := atProcs.filterMap (fun p => (idsOfName p.name).map (fun i => (p, i)))
     let atAssigned := atAfter.filterMap (fun pi => if pi.2.atIds.isEmpty then pi.2.identifiers.head? else none)
-    let atNodup := atAssigned.all (fun x => countOf atAssigned x == 1)
+    let prior := before.filterMap (fun p => if p.ids.atIds.isEmpty then p.ids.identifiers.head? else none)
+    let atNodup := atAssigned.all (fun x => countOf atAssigned x == 1 && !prior.contains x)
     let homogAt := !atProcs.isEmpty && atProcs.length == before.length &&
       before.all (fun p => p.ids.atIds == (atProcs.headD default).ids.atIds && p.ids.identifiers.isEmpty && p.ids.hashIds.isEmpty)
     let homogHash := !hashProcs.isEmpty && hashProcs.length == before.length &&
